@@ -274,7 +274,7 @@ def harnesses(tier):
             "3 bits", outside="Controlled with distance != 0 (raises "
             "NotImplementedError)", timeout_s=T)]
     for named in (False, True):
-        n, m = (2, 2) if q else (3, 2 if named else 3)
+        n, m = (2, 2) if q else (3, 3)
         hs.append(H("circuits_%s" % ("named" if named else "generic"),
                     circuits, dict(n=n, m=m, named=named), FUNCS,
                     covers=["circuit"], engine="SYM (z3 QF_NRA)",
